@@ -808,3 +808,49 @@ def bip85_spellings(seed_hex="5e" * 64):
             if got != ref[name]:
                 raise Mismatch("purity", "bip85.%s on an object that answered other requests before differs from a fresh wallet's answer" % name)
     return n
+
+
+def long_scan(nchildren=2600, nbip85=1100, seed_hex="5e" * 64):
+    """Capacity: a caller holds a few early children of one node and early BIP85 answers, then makes far more
+    requests on the same objects than any small cache or bookkeeping bound (thousands of further children through the
+    address generator and bulk generation, over a thousand distinct BIP85 paths), and asks about the early ones again.
+    Everything must be as it was and as a fresh wallet says.  Raises Mismatch."""
+    from btc_hd_wallet import PaperWallet
+    w = PaperWallet.from_bip39_seed_hex(seed_hex)
+    chain = w.by_path("m/84'/0'/0'/0")
+    held = [chain.ckd(i) for i in (0, 1, 7)]
+
+    def view(n):
+        return (World.fields(n), str(n), n.extended_public_key(), w.node_extended_keys(n), w.p2wpkh_address(n))
+    before = [view(n) for n in held]
+    gen = w.address_generator(node=chain)
+    k = 0
+    for _ in range(nchildren // 2):
+        next(gen)
+        k += 1
+    for c in chain.generate_children((10, 10 + nchildren - nchildren // 2)):
+        k += 1
+    for n, b in zip(held, before):
+        if view(n) != b:
+            raise Mismatch("purity", "a held child of m/84'/0'/0'/0 answers differently after %d further children were derived from its parent" % k)
+    fresh = PaperWallet.from_bip39_seed_hex(seed_hex)
+    for n, i in zip(held, (0, 1, 7)):
+        f = fresh.by_path("m/84'/0'/0'/0/%d" % i)
+        if (World.fields(f), str(f), fresh.node_extended_keys(f)) != (World.fields(n), str(n), w.node_extended_keys(n)):
+            raise Mismatch("purity", "a held child differs from a fresh wallet's after %d further children" % k)
+    # BIP85: early answers, then more than a thousand distinct paths, then the early ones again
+    b = w.bip85
+    early = [("hex", (16, 0)), ("wif", (0,)), ("pwd", (20, 1)), ("bip39_mnemonic", (12, 0)), ("xprv", (2,))]
+    first = [getattr(b, m)(*a) for m, a in early]
+    n85 = 0
+    for i in range(nbip85):
+        m, a = [("hex", (16 + i % 49, i)), ("wif", (i + 3,)), ("pwd", (20 + i % 67, i + 2))][i % 3]
+        getattr(b, m)(*a)
+        n85 += 1
+    again = [getattr(b, m)(*a) for m, a in early]
+    if again != first:
+        raise Mismatch("purity", "early BIP85 answers changed after %d other requests on the same object" % n85)
+    fb = PaperWallet.from_bip39_seed_hex(seed_hex).bip85
+    if [getattr(fb, m)(*a) for m, a in early] != first:
+        raise Mismatch("purity", "BIP85 answers differ from a fresh wallet's")
+    return k + n85
